@@ -255,6 +255,10 @@ def explains(violation, case, finding):
     if not isinstance(tspec, dict):
         from sim import simtok
         tspec = simtok.DEFAULT_SPEC
+    tspec = dict(tspec)
+    for prev in case['history'][:ci]:
+        if prev.get('op') == 'retune' and prev.get('tok') == fspec['tokenizer']:
+            tspec.update(prev['set'])
     qval = tspec.get('qval')
     tok = model.Tok(tspec, tspec.get('return_set', False))
     if kind == 'filter_pair':
